@@ -18,6 +18,7 @@ def build_options(o, output_file=None):
 
     kw = dict(o)
     kw.pop("output", None)
+    kw.pop("auto_dt", None)
     if "terminal_psi" in kw:
         tp = kw["terminal_psi"]
         if tp == "none":
@@ -149,6 +150,57 @@ def build_drive(d, device, options):
     return avp, tc, eps
 
 
+def rescale_drive_times(drive, f):
+    """Multiply every time-like parameter of a drive spec by f (in place)."""
+    A = drive.get("A", {})
+    for key in ("tmin", "tmax"):
+        if key in A:
+            A[key] = A[key] * f
+    if "times" in A:
+        A["times"] = [t * f for t in A["times"]]
+    if "w" in A:
+        A["w"] = A["w"] / f
+    c = drive.get("currents", {})
+    if "w" in c:
+        c["w"] = c["w"] / f
+    if "t_off" in c:
+        c["t_off"] = c["t_off"] * f
+    return drive
+
+
+def resolve_auto_dt(spec, device):
+    """options.auto_dt = {steps, frac[, therm_steps]}: fixed-step runs get their step from the mesh's
+    explicit stability bound at run time (dt = frac * dt*), so that workloads do not die of
+    'failed to converge'; time-like drive parameters are rescaled with the run length."""
+    import copy
+
+    o = spec["options"]
+    auto = o.get("auto_dt")
+    if not auto:
+        return spec
+    from . import stability
+
+    spec = copy.deepcopy(spec)
+    o = spec["options"]
+    o.pop("auto_dt")
+    dts = stability.dt_star(device)
+    T_old = o["solve_time"]
+    if o.get("adaptive", True):
+        o["dt_max"] = auto.get("frac_max", 0.5) * dts
+        o["dt_init"] = min(o.get("dt_init", 1e-3), 0.1 * dts)
+        o["solve_time"] = 0.6 * auto["steps"] * o["dt_max"]
+    else:
+        dt = auto.get("frac", 0.3) * dts
+        o["dt_init"] = dt
+        o["dt_max"] = max(o.get("dt_max", 0.1), dt)
+        o["solve_time"] = max(auto["steps"] * dt - dt / 2, 0.0) if auto.get("exact") else auto["steps"] * dt
+        if auto.get("therm_steps"):
+            o["skip_time"] = auto["therm_steps"] * dt - dt / 2
+    if T_old > 0 and o["solve_time"] > 0:
+        rescale_drive_times(spec.get("drive", {}), o["solve_time"] / T_old)
+    return spec
+
+
 def currents_at(d, t):
     """Harness-side evaluation of the requested terminal currents at time t (user units)."""
     c = d.get("currents", {"kind": "none"})
@@ -183,6 +235,8 @@ def run_sim(spec, listeners=(), failpoints=None, device=None, seed_solution=None
             rr.refused = why
             return rr
     rr.device = device
+    spec = resolve_auto_dt(spec, device)
+    rr.spec = spec
     out_mode = spec.get("options", {}).get("output", "file")
     rr.outdir = workdir or tempfile.mkdtemp(prefix="vt_run_", dir=os.environ.get("VT_TMP"))
     path = os.path.join(rr.outdir, "out.h5") if out_mode == "file" else None
